@@ -390,6 +390,13 @@ class Fn:
             return v["l"]
         return None
 
+    def need_local(self, name):
+        """like local_named, but a missing name is a CHECK-ERROR (the anchor was renamed), never a silent 'no'"""
+        l = self.local_named(name)
+        if l is None:
+            raise CheckError("%s: no local/parameter named `%s` (renamed? update the rule's anchor)" % (self.name, name))
+        return l
+
     def name_of(self, local):
         if self._names is None:
             self._names = {}
